@@ -831,6 +831,49 @@ def _representable(I, v):
     return And(no_nl, first_ok, last_ok)
 
 
+_PARSER_DEFAULTS = {"_delimiters": ("=", ":"), "_comment_prefixes": ("#", ";"), "_strict": True, "_allow_no_value": False,
+                    "_empty_lines_in_values": True, "default_section": "DEFAULT"}
+
+
+def _check_parser_configuration(I, parser):
+    """the read model below is the documented behaviour of a parser constructed with the default syntax options
+    (inline comment prefixes are modelled as well); any other configuration is reported, not guessed"""
+    for k, want in _PARSER_DEFAULTS.items():
+        got = getattr(parser, k, want)
+        if (tuple(got) if isinstance(want, tuple) else got) != want:
+            I.unsupported("INI parser configured with %s=%r (the read model covers %r only)" % (k.lstrip("_"), got, want))
+
+
+def _cut_inline_comment(I, parser, key, v, space):
+    """configparser._read: the line 'key = value' is cut at the first inline-comment prefix that stands at the start of
+    the line or after a white-space character; what remains is stripped"""
+    prefixes = tuple(getattr(parser, "_inline_comment_prefixes", None) or ())
+    if not prefixes or v is None:
+        return v
+    if any(len(p) != 1 for p in prefixes) or not isinstance(key, str):
+        I.unsupported("inline comment prefixes longer than one character / symbolic option names with inline comments")
+    head = key + (" = " if space else "=")
+    for i, ch in enumerate(head):
+        if ch in prefixes and (i == 0 or head[i - 1].isspace()):
+            I.unsupported("inline comment inside an option name %r" % (head,))
+    if isinstance(v, str):
+        for i, ch in enumerate(v):
+            if ch in prefixes and ((i == 0 and space) or (i > 0 and v[i - 1].isspace())):
+                return v[:i].strip()
+        return v
+    a = v.flat()
+    sp = sstr.table("space")
+    pr = [(ord(p), ord(p)) for p in prefixes]
+    for i in range(a.m):
+        before = (True if space else False) if i == 0 else in_ranges(a.c[i - 1], sp)
+        if before is False:
+            continue
+        if I.decide(And(Lt(i, a.n), in_ranges(a.c[i], pr), before)):
+            cut = I.getitem(v, slice(0, i))
+            return I.call(I.get_attr(cut, "strip"), [], {})
+    return v
+
+
 @_parser_model(_cp.RawConfigParser.read_file)
 def _ini_read_file(I, args, kwargs):
     parser, f = args[0], args[1]
@@ -842,6 +885,7 @@ def _ini_read_file(I, args, kwargs):
             I.raise_(_cp.MissingSectionHeaderError("<json>", 1, "{"))
         f.pos_at_start = False
         doc = content.doc
+        _check_parser_configuration(I, parser)
         for name, items in doc.sections:
             if name == parser.default_section:
                 d = parser._defaults
@@ -855,6 +899,9 @@ def _ini_read_file(I, args, kwargs):
                 I.cut(_representable(I, v), "INI values that are not representable in the file syntax (multi-line, leading/trailing blank)")
                 if isinstance(v, str) and v != v.strip():
                     v = v.strip()
+                if isinstance(k, str) and k.strip().startswith(tuple(parser._comment_prefixes or ())) and (parser._comment_prefixes or ()):
+                    continue          # a full-line comment (the '; WARNING' lines of [general])
+                v = _cut_inline_comment(I, parser, k, v, doc.space)
                 kk = _xform(I, parser, k.rstrip())
                 I.setitem(d, kk, v)
         return None
